@@ -56,20 +56,17 @@ def parseTable (s : String) : List (String × String) :=
 def stopName : Stop → String
   | .eof => "ok"
   | .err e => e.name
-  | .unknown => "?"
 
 def obsLine (err : String) (reqs : List String) : String :=
   s!"err={err} n={reqs.length} reqs={";".intercalate reqs}"
 
 /-- model observation of a list of decoded ammo: `none` when some URL is outside the modelled class -/
 def ammoObs (res : List Ammo × Stop) : Option String := do
-  if res.2 == .unknown then none
   let reqs ← res.1.mapM buildReq
   pure (obsLine (stopName res.2) (reqs.map reqStr))
 
 /-- raw: requests are delivered until the first frame that `http.ReadRequest` rejects (Acquire returns false) -/
 def rawObs (tbl : List (String × String)) (res : List RawAmmo × Stop) : Option String := do
-  if res.2 == .unknown then none
   let rec go : List RawAmmo → List String → Option (List String × Bool)
     | [], acc => some (acc.reverse, false)
     | a :: r, acc =>
